@@ -97,12 +97,14 @@ var c18Bystanders = []struct{ path, data string }{
 	{"deep/a/b/c/text.JSON", "not json at all"},
 }
 
-func c18Name(i int) string { return []string{"alpha", "beta", "gamma", "delta", "epsilon", "zeta"}[i] }
+func c18Name(i int) string {
+	return []string{"alpha", "Beta", "gamma.g2", "DELTA", "epsilon", "Zeta.Sub.v1"}[i]
+}
 
 // buildC18 makes entities for an issuer function: iss[i] = -1 none, 0..n-1 entity, n = itself marker unused, n+1 = undefined name.
 func buildC18(n int, iss []int, variant int) World {
 	var w World
-	dirs := []string{"", "ca/", "ca/sub/", "x/y/z/"}
+	dirs := []string{"", "ca/", "ca/sub/", "x/y/z/", "pki.v2/", "Mixed.Case/inner.d/"}
 	exts := []string{".yaml", ".yml", ".json", ".YAML", ".Yml", ".JSON", ".yAmL"}
 	for i := 0; i < n; i++ {
 		e := core.Entity{File: dirs[(i+variant)%len(dirs)] + c18Name(i) + exts[(i*3+variant)%len(exts)],
